@@ -23,8 +23,14 @@ def inert_none_path(F, R, names, rule='Q1'):
             continue
         bad = []
         seen = False
+        input_kids = set()
+        for cp, feeds in m.up_vg.child_fed.items():
+            for pc, arg, node in feeds:
+                if arg[0] == 'arg':
+                    input_kids.add(cp)
         for ex in m.up_exits:
-            nodeliv = any(c[0] == 'op' and c[1] == 'not' and c[2][0][0] == 'is_some' and c[2][0][1][0] == 'childlast' for c in ex.pc if isinstance(c, tuple))
+            nodeliv = any(c[0] == 'op' and c[1] == 'not' and c[2][0][0] == 'is_some' and c[2][0][1][0] == 'childlast' and c[2][0][1][1] in input_kids
+                          for c in ex.pc if isinstance(c, tuple))
             if not nodeliv:
                 continue
             seen = True
